@@ -37,6 +37,9 @@ type evCase struct {
 	SQL     string  `json:"sql"`
 	Pattern string  `json:"pattern"`
 	Tail    int64   `json:"sentinel_ts"`
+	// back-pressure: a tiny window output buffer and a slow synchronous sink hold the trigger goroutine up
+	WinOut      int `json:"window_output_buffer,omitempty"`
+	SinkDelayMs int `json:"sink_delay_ms,omitempty"`
 }
 
 func durStr(ms int64) string {
@@ -192,9 +195,13 @@ func (c *evCase) rowMap(r evRow) Row {
 // run executes the case: rows, then the sentinel; expectWindows (≥0) enables the fast path.
 func (c *evCase) run(expectDels int) evRun {
 	evPerturb()
-	s, err := eng.New(c.SQL, eng.Opts{})
+	s, err := eng.New(c.SQL, eng.Opts{WindowOut: c.WinOut})
 	if err != nil {
 		return evRun{Err: err}
+	}
+	if c.SinkDelayMs > 0 {
+		d := time.Duration(c.SinkDelayMs) * time.Millisecond
+		s.AddSyncSink(func([]map[string]any) { time.Sleep(d) })
 	}
 	rec := eng.Attach(s)
 	defer s.Stop()
@@ -219,7 +226,7 @@ func (c *evCase) run(expectDels int) evRun {
 		emit(r)
 	}
 	emit(evRow{ID: -1, TS: c.Tail, K: "__sentinel__", V: 0})
-	if expectDels >= 0 && rec.WaitDeliveries(expectDels, 3*time.Second) {
+	if expectDels >= 0 && rec.WaitDeliveries(expectDels, 3*time.Second+time.Duration(c.SinkDelayMs*(expectDels+2))*time.Millisecond) {
 		out.Quiescent = rec.Quiesce(3, 8*time.Millisecond, 5*time.Second)
 	} else {
 		out.Quiescent = rec.Quiesce(3, 260*time.Millisecond, 60*time.Second)
